@@ -295,3 +295,14 @@ Definition chk_C11 (s : src) (o : tree_obs) : N :=
     else 0
   | _, _ => 9
   end.
+
+(* ---------- C07, failing writers ---------- *)
+From RS Require Import Sem.Writer.
+(* observed: buffer(), bytes written and ok-flag for a writer of capacity cap *)
+Definition chk_C07_writer (s : src) (cap : N) (short : bool) (buf written : text) (ok : bool) : N :=
+  if negb (tree_wf s) then 100
+  else if negb (Bool.eqb ok (len buf <=? cap)) then 1          (* Err exactly when the writer runs out *)
+  else if negb (is_prefix written buf) then 2                  (* only a prefix of buffer() was written *)
+  else if ok && negb (text_eqb written buf) then 3
+  else if short && negb ok && negb (text_eqb written (take cap buf)) then 4
+  else 0.
